@@ -571,6 +571,19 @@ theorem C15_numa_ok_all_clauses (cfg : Cfg) (hu : UsedZero cfg) (hok : NumaOk cf
   intro hp
   simpa [ind, hp] using a4
 
+/-- **Converse for the reported PU number on well-shaped machines**: as soon as a socket with a
+    positive core offset receives a thread (`num_threads_socket[j] > 0`, `j`-th socket not at core
+    0), some worker reports a PU it is not bound to — the last condition of `NumaOk` (all threads on
+    the first socket) is necessary. -/
+theorem C15_numa_reported_wrong_beyond_socket0 (cfg : Cfg) (hu : UsedZero cfg) (hwf : WF cfg.t)
+    (hs : NumaShape cfg.t) (hn : cfg.n ≤ avail cfg) (j : Nat) (hj : j < numSockets cfg.t)
+    (hpos : 0 < (numaSharesOf cfg).getD j 0) (hoff : 0 < sockOff cfg.t j) :
+    ∃ i, i < cfg.n ∧
+      affOf (decode .numaBalanced cfg) i ≠ [pnOf (decode .numaBalanced cfg) i] := by
+  obtain ⟨aff, pn, e, i, hi, hne⟩ := numa_misreport_spec cfg (effUsed_zero cfg hu) hwf hs
+    (tooMany_false cfg hn) j hj hpos hoff
+  exact ⟨i, hi, by simpa [decode, e, affOf, pnOf] using hne⟩
+
 /-! non-vacuity of the numa-balanced guards, and the known counterexamples seen through them -/
 
 /-- 6 threads on 3×2×2: two per socket — binding right on all sockets (the reported PU numbers
